@@ -32,6 +32,8 @@ def check(A):
         C.receive_packet_table(A, cf, 'C10')
         C.disconnect_rules(A, cf, 'C10')
         C.trigger_rules(A, cf, 'C10')
+        C.connect_rules(A, cf, 'C10')
+        C.client_factory_rule(A, cf, 'C10')
     for fl in S.FLAVOURS:
         S.upgrade_handshake(A, fl, 'C10')
         R.handle_connect_rules(A, fl, 'C10')
